@@ -562,7 +562,7 @@ def _label(data, k):
 
 contract(
     f"{MATH}:data_resolution_and_offset",
-    ["C20"],
+    ["C20", "C09"],
     inputs=dict(data=_axis("data"), fallback_resolution=OneOf(None, Real()), k=Int(ge=0)),
     requires=[lambda data, k: Or(k < data.size, data.size == 0)],
     raises=[(ValueError, lambda data, fallback_resolution: Or(data.size < 1, And(data.size < 2, fallback_resolution is None)))],
